@@ -45,6 +45,11 @@ theorem good_require {B : Nat} {c : Bool} {f : Fault} (h : c = true) : Good B (R
 theorem not_good_panic {α} (B : Nat) (f : Fault) : ¬ Good B (Res.panic f : Res α) := by
   intro ⟨h, _⟩; exact h ⟨f, rfl⟩
 
+@[simp] theorem Res.ok_bind {α β} (a : α) (f : α → Res β) : (Res.ok a >>= f) = f a := by
+  show Res.bind (Res.ok a) f = f a
+  unfold Res.bind Res.ok
+  simp
+
 theorem Res.bind_def {α β} (r : Res α) (f : α → Res β) : (r >>= f) = Res.bind r f := rfl
 
 /-- `bind` preserves `Good`; the continuation only has to be good on the value actually produced -/
